@@ -50,8 +50,7 @@ def occursAt (nocase : Bool) (pat buf : Bytes) (o : Nat) : Bool :=
 def xorKeyAt (pat buf : Bytes) (o : Nat) : Option UInt8 :=
   match pat, window buf o pat.length with
   | p0 :: _, some (w0 :: wt) =>
-      let k := p0 ^^^ w0
-      if (w0 :: wt) == pat.map (· ^^^ k) then some k else none
+      if (w0 :: wt) == pat.map (· ^^^ (p0 ^^^ w0)) then some (p0 ^^^ w0) else none
   | _, _ => none
 
 def inRange (r : UInt8 × UInt8) (k : UInt8) : Bool := r.1 ≤ k && k ≤ r.2
